@@ -507,7 +507,10 @@ func (k *checker) persist1(pt pairType) {
 		case *ssa.Call:
 			// pn.SetName(gn.Name): one level of receiver methods
 			cc := x.Common()
-			g := cc.StaticCallee()
+			var g *ssa.Function
+			if cal := flow.Callee(x); cal != nil && !cc.IsInvoke() {
+				g = k.c.P.SSA.FuncValue(cal) // the declared body, not an instantiation wrapper
+			}
 			if g == nil || g.Blocks == nil || len(cc.Args) == 0 || cc.Args[0] != recv || len(g.Params) != len(cc.Args) {
 				return
 			}
